@@ -21,10 +21,11 @@ import (
 )
 
 type elStep struct {
-	E  string `json:"e"`
-	C  string `json:"c"`
-	N  int    `json:"n"`
-	Ok bool   `json:"ok"`
+	E     string `json:"e"`
+	C     string `json:"c"`
+	N     int    `json:"n"`
+	Ok    bool   `json:"ok"`
+	Fault bool   `json:"fault"`
 }
 type elBehaviour struct {
 	Steps []elStep `json:"steps"`
@@ -147,7 +148,15 @@ func cmdElectRun(args []string) int {
 					cur = readRec()
 					var err error
 					if s.E == "LCreate" {
+						if tf := engs[en].TiKV; s.Fault && tf != nil {
+							// the point read inside the engine's put-if-absent is aborted
+							st.BeforeRun = tf.ArmGet
+						}
 						err = lk.Create(ler)
+						st.BeforeRun = nil
+						if tf := engs[en].TiKV; tf != nil {
+							tf.Disarm()
+						}
 					} else {
 						err = lk.Update(ler)
 					}
